@@ -166,9 +166,19 @@ macro_rules! interp {
                     tlog(s);
                 }
             }
+            thread_local! {
+                /// the program's other handles to the value that is being copied by make_mut: a
+                /// `Clone` impl with tag % 7 == 3 drops them all while it runs (a cache eviction)
+                static EVICT: RefCell<Vec<(usize, Rc<V>)>> = RefCell::new(Vec::new());
+            }
             impl Clone for V {
                 fn clone(&self) -> V {
                     tlog(format!("  ~clone({})", self.tag.get()));
+                    if self.tag.get() % 7 == 3 {
+                        let ev = EVICT.with(|e| std::mem::take(&mut *e.borrow_mut()));
+                        tlog(format!("  ~evict({}) handles={} strong before={}", self.tag.get(), ev.len(), ev.first().map(|x| Rc::strong_count(&x.1)).unwrap_or(0)));
+                        drop(ev);
+                    }
                     if self.tag.get() % 5 == 0 {
                         // a Clone impl that fails: nothing must be constructed or destroyed for it
                         std::panic::panic_any(super::CloneBomb);
@@ -351,17 +361,34 @@ macro_rules! interp {
                             },
                             None => "skip".into(),
                         },
-                        DOp::MakeMut(v) => match vars[*v].as_mut() {
-                            Some(r) => {
+                        DOp::MakeMut(v) => match vars[*v].take() {
+                            Some(mut h) => {
+                                if h.tag.get() % 7 == 3 {
+                                    // the value's Clone will drop every other handle the program has to it
+                                    let mut ev = vec![];
+                                    for (i, slot) in vars.iter_mut().enumerate() {
+                                        if slot.as_ref().map_or(false, |o| Rc::ptr_eq(o, &h)) {
+                                            ev.push((i, slot.take().unwrap()));
+                                        }
+                                    }
+                                    EVICT.with(|e| *e.borrow_mut() = ev);
+                                }
+                                let r = &mut h;
                                 let res = std::panic::catch_unwind(std::panic::AssertUnwindSafe(|| {
                                     let m = Rc::make_mut(r);
                                     m.tag.set(m.tag.get() + 3);
                                     m.tag.get()
                                 }));
-                                match res {
+                                let line = match res {
                                     Ok(t) => format!("make_mut {} -> tag {} strong {} weak {}", v, t, Rc::strong_count(r), Rc::weak_count(r)),
                                     Err(_) => format!("make_mut {} -> Clone panicked; handle now tag {} strong {} weak {}", v, r.tag.get(), Rc::strong_count(r), Rc::weak_count(r)),
+                                };
+                                // handles the Clone did not get to (it never ran, or it failed first) go back
+                                for (i, o) in EVICT.with(|e| std::mem::take(&mut *e.borrow_mut())) {
+                                    vars[i] = Some(o);
                                 }
+                                vars[*v] = Some(h);
+                                line
                             }
                             None => "skip".into(),
                         },
